@@ -166,3 +166,10 @@ def all_paths_pass(f, start, through):
         if x in f.returns: return False
         st.extend(f.succ[x])
     return True
+
+_rules_C17_w5d = rules
+def rules(t, *a, **kw):
+    import rules.wave5 as W5
+    out = _rules_C17_w5d(t, *a, **kw)
+    out.append(W5.request_fields_prov(t, "C17.i"))
+    return out
